@@ -12,6 +12,56 @@ import (
 	"golang.org/x/tools/go/ssa"
 )
 
+// storesNonConstInto: fn stores a non-constant value into an element of param.
+func storesNonConstInto(fn *ssa.Function, param *ssa.Parameter) bool {
+	for _, b := range fn.Blocks {
+		for _, ins := range b.Instrs {
+			if st, ok := ins.(*ssa.Store); ok {
+				if ia, ok := st.Addr.(*ssa.IndexAddr); ok && ia.X == ssa.Value(param) {
+					if _, isConst := st.Val.(*ssa.Const); !isConst {
+						return true
+					}
+				}
+			}
+		}
+	}
+	return false
+}
+
+// chunkSizeRole classifies a getChunkSize call by what its result is used
+// for: sizing a doc-value content coder ("dv-writer"), dividing a document
+// number in a function that does not store it as a postings chunk size
+// ("dv-reader"), or the postings machinery ("postings").
+func chunkSizeRole(fn *ssa.Function, call *ssa.Call) string {
+	res := tupleParts(call)[0]
+	if res == nil {
+		return ""
+	}
+	role := ""
+	for _, ref := range *res.Referrers() {
+		switch x := ref.(type) {
+		case *ssa.Call:
+			if sc := x.Call.StaticCallee(); sc != nil {
+				switch fnName(sc) {
+				case "newChunkedContentCoder":
+					return "dv-writer"
+				case "(*chunkedIntCoder).SetChunkSize", "newChunkedIntCoder":
+					return "postings"
+				}
+			}
+		case *ssa.Store:
+			if strings.HasSuffix(exprSig(x.Addr, 0), ".chunkSize") {
+				return "postings"
+			}
+		case *ssa.BinOp:
+			if x.Op == token.QUO && x.Y == ssa.Value(res) {
+				role = "dv-reader"
+			}
+		}
+	}
+	return role
+}
+
 func init() {
 	register(&Rule{
 		Name:  "DV-FACTOR-AGREE",
@@ -19,24 +69,41 @@ func init() {
 		Doc:   "the three doc-value sites (builder, merger, reader) call getChunkSize with the same constant mode, which is <= the legacy bound so the result is that constant whatever the other arguments are; the writers size their content coder with the result and the reader's chunk index is docNum / result",
 		Run: func(c *Ctx, scope string, r *Report) {
 			legacy, _ := constantInt64(c.ConstVal("legacyChunkMode"))
-			sites := map[string]string{
-				"(*interim).writeDictsField":         "writer",
-				"buildMergedDocVals":                 "writer",
-				"(*Segment).visitDocumentFieldTerms": "reader",
+			// the doc-value sites, found by what the result is used for
+			type dvSite struct {
+				fn   *ssa.Function
+				call *ssa.Call
+				role string
+			}
+			var sites []dvSite
+			nW, nR := 0, 0
+			for _, fn := range c.fnsCalling("getChunkSize") {
+				for _, call := range callsOf(fn, "getChunkSize") {
+					switch chunkSizeRole(fn, call) {
+					case "dv-writer":
+						sites = append(sites, dvSite{fn, call, "writer"})
+						nW++
+					case "dv-reader":
+						sites = append(sites, dvSite{fn, call, "reader"})
+						nR++
+					case "postings":
+					default:
+						r.undecided(fnName(fn)+"/dv-chunk", fnName(fn), c.pos(call.Pos()), "cannot tell what this getChunkSize result is used for (not a content coder, not a chunk index divisor, not the postings encoders)")
+					}
+				}
+			}
+			if nW < 2 || nR < 1 {
+				r.undecided("dv-chunk/sites", "", "-", fmt.Sprintf("%d doc-value writer and %d reader site(s) of getChunkSize found; the builder, the merger and the reader each need one", nW, nR))
 			}
 			modes := map[string]int64{}
-			for name, role := range sites {
-				fn := c.MustFn(name)
-				calls := callsOf(fn, "getChunkSize")
+			for _, site := range sites {
+				fn, call, role := site.fn, site.call, site.role
+				name := fnName(fn)
 				key := name + "/dv-chunk"
-				if len(calls) != 1 {
-					r.undecided(key, name, c.pos(fn.Pos()), fmt.Sprintf("%d getChunkSize calls", len(calls)))
-					continue
-				}
-				call := calls[0]
-				m, ok := constInt(call.Call.Args[0])
+				modeArg, _, _ := chunkSizeArgs(&call.Call)
+				m, ok := constInt(modeArg)
 				if !ok {
-					r.bad(key, name, c.pos(call.Pos()), "the doc-value chunk mode is not a constant here ("+exprSig(call.Call.Args[0], 0)+"): doc values are chunked by a fixed 1024 documents in format v2")
+					r.bad(key, name, c.pos(call.Pos()), "the doc-value chunk mode is not a constant here ("+exprSig(modeArg, 0)+"): doc values are chunked by a fixed 1024 documents in format v2")
 					continue
 				}
 				modes[name] = m
@@ -54,7 +121,10 @@ func init() {
 								used = true
 							}
 						case *ssa.BinOp:
-							if role == "reader" && x.Op == token.QUO && x.Y == ssa.Value(res) && x.X == ssa.Value(fn.Params[1]) {
+							if role == "reader" && x.Op == token.QUO && x.Y == ssa.Value(res) {
+								if _, isParam := stripConv(x.X).(*ssa.Parameter); !isParam {
+									continue
+								}
 								used = true
 							}
 						}
@@ -79,7 +149,7 @@ func init() {
 					same = false
 				}
 			}
-			if len(modes) == 3 && same {
+			if len(modes) >= 3 && same {
 				r.ok("dv-chunk/same-constant", "", "-", fmt.Sprintf("all three sites fold to %d", first))
 			} else if len(modes) > 0 {
 				r.bad("dv-chunk/same-constant", "", "-", fmt.Sprintf("the doc-value sites do not use one constant: %v", modes))
@@ -240,18 +310,23 @@ func init() {
 		Floor: 2,
 		Doc:   "whenever a writer records a real (non-sentinel) end offset for a field's doc-value section it has closed the content coder and written its trailer on that path: the loader parses the trailer of every field whose start offset is not the not-uninverted sentinel",
 		Run: func(c *Ctx, scope string, r *Report) {
-			for _, name := range []string{"(*interim).writeDictsField", "buildMergedDocVals"} {
-				fn := c.MustFn(name)
+			// the writers: every function that is handed the doc-value end-offset
+			// slice and closes a content coder (the site may be a helper of
+			// writeDictsField / buildMergedDocVals)
+			for _, fn := range c.srcFns {
+				name := fnName(fn)
 				var endParam *ssa.Parameter
 				for _, p := range fn.Params {
-					if strings.HasSuffix(p.Name(), "End") {
+					if strings.HasSuffix(p.Name(), "End") && p.Type().String() == "[]uint64" {
 						endParam = p
 					}
 				}
 				key := name + "/end-offset"
 				if endParam == nil {
-					r.undecided(key, name, c.pos(fn.Pos()), "end-offset slice parameter not found")
 					continue
+				}
+				if len(callsOf(fn, "(*chunkedContentCoder).Write")) == 0 && !storesNonConstInto(fn, endParam) {
+					continue // only forwards the slice
 				}
 				writes := callsOf(fn, "(*chunkedContentCoder).Write")
 				closes := callsOf(fn, "(*chunkedContentCoder).Close")
@@ -379,24 +454,50 @@ func init() {
 
 	register(&Rule{
 		Name:  "TAIL-READ-BOUNDED",
-		Floor: 4,
+		Floor: 3,
 		Doc:   "loadFields reads the last section of the data (ADJACENCY: the fields index immediately precedes the footer): none of its reads uses a fixed look-ahead window (x, x+const) that could extend past the end of file-backed data; every read ends at the section end or at a decoded length",
 		Run: func(c *Ctx, scope string, r *Report) {
 			fn := c.MustFn("(*Segment).loadFields")
+			check := func(at *ssa.Call, start, end ssa.Value) {
+				key := fnName(fn) + "/read-end"
+				start, end = stripConv(start), stripConv(end)
+				if x, k, ok := addConst(end); ok && k != 8 && (stripConv(x) == start || exprSig(x, 0) == exprSig(start, 0)) {
+					r.bad(key, fnName(fn), c.pos(at.Pos()), fmt.Sprintf("fixed %d-byte look-ahead in the last section of the file: for file-backed data the window can extend past the end (short final records) and the read fails with EOF", k))
+					return
+				}
+				r.ok(key, fnName(fn), c.pos(at.Pos()), "read ends at "+exprSig(end, 0))
+			}
 			for _, b := range fn.Blocks {
 				for _, ins := range b.Instrs {
 					call, ok := ins.(*ssa.Call)
-					if !ok || !isDataRead(&call.Call) {
+					if !ok {
 						continue
 					}
-					key := fnName(fn) + "/read-end"
-					end := stripConv(call.Call.Args[2])
-					start := stripConv(call.Call.Args[1])
-					if x, k, ok := addConst(end); ok && k != 8 && (stripConv(x) == start || exprSig(x, 0) == exprSig(start, 0)) {
-						r.bad(key, fnName(fn), c.pos(call.Pos()), fmt.Sprintf("fixed %d-byte look-ahead in the last section of the file: for file-backed data the window can extend past the end (short final records) and the read fails with EOF", k))
+					if isDataRead(&call.Call) {
+						check(call, call.Call.Args[1], call.Call.Args[2])
 						continue
 					}
-					r.ok(key, fnName(fn), c.pos(call.Pos()), "read ends at "+exprSig(call.Call.Args[2], 0))
+					// a read helper (reads [its parameter, its parameter)): the
+					// window is the one the call site passes
+					sc := call.Call.StaticCallee()
+					if sc == nil || !c.inRoot(sc) || sc.Blocks == nil {
+						continue
+					}
+					for _, hb := range sc.Blocks {
+						for _, hi := range hb.Instrs {
+							hc, ok := hi.(*ssa.Call)
+							if !ok || !isDataRead(&hc.Call) {
+								continue
+							}
+							ps, okS := stripConv(hc.Call.Args[1]).(*ssa.Parameter)
+							pe, okE := stripConv(hc.Call.Args[2]).(*ssa.Parameter)
+							if okS && okE {
+								check(call, argFor(&call.Call, ps), argFor(&call.Call, pe))
+							} else {
+								check(hc, hc.Call.Args[1], hc.Call.Args[2])
+							}
+						}
+					}
 				}
 			}
 		},
@@ -410,7 +511,9 @@ func init() {
 			vals := map[string]string{}
 			for k, v := range c.useSiteConstants() {
 				if strings.Contains(k, "newChunkedDocumentCoder(arg 0)") {
-					vals[k] = v
+					for i, one := range strings.Fields(v) {
+						vals[fmt.Sprintf("%s site %d", k, i+1)] = one
+					}
 				}
 				if strings.HasPrefix(k, "(*Segment).getDocStoredOffsets: arithmetic") {
 					vals[k] = strings.TrimPrefix(v, "/")
